@@ -1,6 +1,6 @@
 (* C02 - Emitted packets conform to RFC 4253 and survive any segmentation.
    Statements only; proofs in Proofs/PacketProofs.v; model in Model/Packet.v. *)
-From AV Require Import Base.Prelude Model.Packet Proofs.PacketProofs.
+From AV Require Import Base.Prelude Model.Packet Proofs.PacketProofs Model.PacketEnc Proofs.PacketEncProofs Corr.C02EncCorr.
 
 (* Padding computed by send_packet: for every block size >= 8, every header size and every payload
    length there are at least 4 and fewer than blocksize + 4 padding bytes, and header + payload +
@@ -72,3 +72,192 @@ Theorem C02_derive_rfc_3 : forall (H : bytes -> bytes) (d : nat),
   derive_key H k h x sid keylen = firstn (Z.to_nat keylen) (k1 ++ k2 ++ k3).
 Proof. exact derive_key_rfc_3. Qed.
 Print Assumptions C02_derive_rfc_3.
+
+(* ================================ encrypted phase ============================================== *)
+(* Byte-level model of the encrypted phase (Model/PacketEnc.v): every block size, MAC size and the
+   four shim classes of encryption.py over ABSTRACT primitives (cipher, MAC, AEAD are universally
+   quantified functions; their laws, where needed, are explicit premises). *)
+
+(* T1.  Segmentation independence for ANY decrypt_header / decrypt_packet functions (hence every shim
+   class and every cipher, MAC or AEAD, with no assumption on them), every block size >= 1 and MAC
+   size >= 0: delivering a then b equals delivering a ++ b, as long as no header announcing less than
+   one block (4 + packet_length < blocksize) is seen. *)
+Theorem C02_enc_segmentation : forall (cst : Type) (dh : cst -> Z -> bytes -> cst * bytes * bytes)
+    (dp : cst -> Z -> bytes -> bytes -> bytes -> cst * option bytes) (bs macsz : Z),
+  1 <= bs -> 0 <= macsz ->
+  forall (s : estate cst) (a b : bytes),
+  eokp cst bs s -> eshort s = false -> eshort (efeed dh dp bs macsz s (a ++ b)) = false ->
+  efeed dh dp bs macsz (efeed dh dp bs macsz s a) b = efeed dh dp bs macsz s (a ++ b).
+Proof. exact enc_feed_feed. Qed.
+Print Assumptions C02_enc_segmentation.
+
+(* ... hence every chunking of a byte stream equals one delivery of the whole stream. *)
+Theorem C02_enc_any_chunking : forall (cst : Type) (dh : cst -> Z -> bytes -> cst * bytes * bytes)
+    (dp : cst -> Z -> bytes -> bytes -> bytes -> cst * option bytes) (bs macsz : Z),
+  1 <= bs -> 0 <= macsz ->
+  forall (chunks : list bytes) (s : estate cst),
+  eokp cst bs s -> eshort s = false -> eshort (efeed dh dp bs macsz s (concat chunks)) = false ->
+  fold_left (efeed dh dp bs macsz) chunks s = efeed dh dp bs macsz s (concat chunks) \/ chunks = [].
+Proof. exact enc_feed_chunks. Qed.
+Print Assumptions C02_enc_any_chunking.
+
+(* T2 (also the byte-level underpinning of C01).  For every input byte stream, every chunking, every
+   mode, block size, MAC size and ANY primitives: the payloads delivered are exactly the payload slices
+   of the logged successful decrypt_packet calls, in order; the i-th of them ran under sequence number
+   (seq0 + i) mod 2^32; each was accepted by the integrity check of its shim class computed over the
+   whole packet including the length field (Basic: mac = tag seq (plain text of first block ++ rest);
+   ETM: mac = tag seq (cipher text incl. length); GCM / chacha: verify_and_decrypt(length field,
+   rest of the packet, mac) returned the data); the first block is what decrypt_header made of the
+   wire block under that same sequence number; and the receiver's sequence number is seq0 + number of
+   deliveries mod 2^32.  No cryptographic assumption. *)
+Theorem C02_enc_delivered_verified : forall (cst : Type) (cdec : cst -> bytes -> cst * bytes)
+    (tag : Z -> bytes -> bytes) (gcm_dec : cst -> bytes -> bytes -> bytes -> cst * option bytes)
+    (cc_hdr : Z -> bytes -> bytes) (cc_dec : Z -> bytes -> bytes -> bytes -> option bytes)
+    (m : emode) (bs macsz : Z) (c0 : cst) (sq0 : Z) (chunks : list bytes),
+  0 <= sq0 < M32 ->
+  let s := fold_left (mfeed cst cdec tag gcm_dec cc_hdr cc_dec m bs macsz) chunks (einit c0 sq0) in
+  egot s = map (fun e => py_payload (vdata e)) (elog s) /\
+  map vseq (elog s) = seqs_from sq0 (length (elog s)) /\
+  Forall (fun e => accepted cst cdec tag gcm_dec cc_dec m e /\ header_of cst cdec cc_hdr m e) (elog s) /\
+  eseq s = (sq0 + Z.of_nat (length (egot s))) mod M32.
+Proof. exact enc_delivered_verified. Qed.
+Print Assumptions C02_enc_delivered_verified.
+
+(* T3, one theorem per shim class; the premises on the primitives are exactly the hypotheses listed.
+   stream_ok: the frames send_packet writes for ANY list of (payload, padding) pairs that satisfy its
+   padding rule (wf_pkt: payload non-empty, >= 4 bytes of padding, _send_enchdrlen + payload + padding a
+   multiple of the block size, which C02_padding / pad_len_wf show pad_len achieves), cut into ANY
+   chunks, make a receiver starting in the sender's state deliver exactly those payloads in order,
+   without failure, buffer empty, sequence number advanced by their number mod 2^32, cipher state
+   equal to the sender's.
+   Basic (MAC over plain text, whole packet encrypted): needs length preservation, decrypt inverts
+   encrypt from the same state on block-aligned data, decrypting an aligned first block and then the
+   aligned rest equals decrypting at once, tag length = macsz.  The extra premise
+   (0 < macsz \/ blocksize < packet size) is needed: see C02_enc_late_delivery. *)
+Theorem C02_enc_stream_received_basic : forall (cst : Type) (cenc cdec : cst -> bytes -> cst * bytes)
+    (tag : Z -> bytes -> bytes) (gcm_enc : cst -> bytes -> bytes -> cst * (bytes * bytes))
+    (gcm_dec : cst -> bytes -> bytes -> bytes -> cst * option bytes) (cc_enc : Z -> bytes -> bytes -> bytes * bytes)
+    (cc_hdr : Z -> bytes -> bytes) (cc_dec : Z -> bytes -> bytes -> bytes -> option bytes) (bs macsz : Z),
+  4 <= bs -> 0 <= macsz ->
+  (forall c x, zlen (snd (cenc c x)) = zlen x) ->
+  (forall c x, zlen (snd (cdec c x)) = zlen x) ->
+  (forall c x, zlen x mod bs = 0 -> cdec c (snd (cenc c x)) = (fst (cenc c x), x)) ->
+  (forall c a b, zlen a mod bs = 0 -> zlen b mod bs = 0 ->
+     cdec c (a ++ b) = (fst (cdec (fst (cdec c a)) b), snd (cdec c a) ++ snd (cdec (fst (cdec c a)) b))) ->
+  (forall sq x, zlen (tag sq x) = macsz) ->
+  forall pkts c sq chunks, 0 <= sq < M32 ->
+  Forall (fun p => wf_pkt bs Basic p /\ (0 < macsz \/ bs < 5 + zlen (fst p) + zlen (snd p))) pkts ->
+  concat chunks = concat (snd (send_stream cst cenc tag gcm_enc cc_enc Basic c sq pkts)) ->
+  stream_ok cst cenc cdec tag gcm_enc gcm_dec cc_enc cc_hdr cc_dec bs macsz Basic pkts c sq chunks.
+Proof. exact enc_stream_received_basic. Qed.
+Print Assumptions C02_enc_stream_received_basic.
+
+(* ETM (length in clear, MAC over cipher text, verified before decrypting) *)
+Theorem C02_enc_stream_received_etm : forall (cst : Type) (cenc cdec : cst -> bytes -> cst * bytes)
+    (tag : Z -> bytes -> bytes) (gcm_enc : cst -> bytes -> bytes -> cst * (bytes * bytes))
+    (gcm_dec : cst -> bytes -> bytes -> bytes -> cst * option bytes) (cc_enc : Z -> bytes -> bytes -> bytes * bytes)
+    (cc_hdr : Z -> bytes -> bytes) (cc_dec : Z -> bytes -> bytes -> bytes -> option bytes) (bs macsz : Z),
+  4 <= bs -> 0 <= macsz ->
+  (forall c x, zlen (snd (cenc c x)) = zlen x) ->
+  (forall c x, zlen x mod bs = 0 -> cdec c (snd (cenc c x)) = (fst (cenc c x), x)) ->
+  (forall sq x, zlen (tag sq x) = macsz) ->
+  forall pkts c sq chunks, 0 <= sq < M32 -> Forall (wf_pkt bs ETM) pkts ->
+  concat chunks = concat (snd (send_stream cst cenc tag gcm_enc cc_enc ETM c sq pkts)) ->
+  stream_ok cst cenc cdec tag gcm_enc gcm_dec cc_enc cc_hdr cc_dec bs macsz ETM pkts c sq chunks.
+Proof. exact enc_stream_received_etm. Qed.
+Print Assumptions C02_enc_stream_received_etm.
+
+(* GCM: encrypt_and_sign puts the 4-byte header in clear in front of the cipher text, the tag has
+   macsz bytes, verify_and_decrypt from the same state returns the data and the same next state *)
+Theorem C02_enc_stream_received_gcm : forall (cst : Type) (cenc cdec : cst -> bytes -> cst * bytes)
+    (tag : Z -> bytes -> bytes) (gcm_enc : cst -> bytes -> bytes -> cst * (bytes * bytes))
+    (gcm_dec : cst -> bytes -> bytes -> bytes -> cst * option bytes) (cc_enc : Z -> bytes -> bytes -> bytes * bytes)
+    (cc_hdr : Z -> bytes -> bytes) (cc_dec : Z -> bytes -> bytes -> bytes -> option bytes) (bs macsz : Z),
+  4 <= bs -> 0 <= macsz ->
+  (forall c h d, zlen h = 4 ->
+     let r := gcm_enc c h d in
+     zlen (fst (snd r)) = 4 + zlen d /\ firstn 4 (fst (snd r)) = h /\ zlen (snd (snd r)) = macsz /\
+     gcm_dec c h (skipn 4 (fst (snd r))) (snd (snd r)) = (fst r, Some d)) ->
+  forall pkts c sq chunks, 0 <= sq < M32 -> Forall (wf_pkt bs GCM) pkts ->
+  concat chunks = concat (snd (send_stream cst cenc tag gcm_enc cc_enc GCM c sq pkts)) ->
+  stream_ok cst cenc cdec tag gcm_enc gcm_dec cc_enc cc_hdr cc_dec bs macsz GCM pkts c sq chunks.
+Proof. exact enc_stream_received_gcm. Qed.
+Print Assumptions C02_enc_stream_received_gcm.
+
+(* chacha20-poly1305: decrypt_header inverts the header encryption and verify_and_decrypt inverts
+   encrypt_and_sign under the same sequence number *)
+Theorem C02_enc_stream_received_chacha : forall (cst : Type) (cenc cdec : cst -> bytes -> cst * bytes)
+    (tag : Z -> bytes -> bytes) (gcm_enc : cst -> bytes -> bytes -> cst * (bytes * bytes))
+    (gcm_dec : cst -> bytes -> bytes -> bytes -> cst * option bytes) (cc_enc : Z -> bytes -> bytes -> bytes * bytes)
+    (cc_hdr : Z -> bytes -> bytes) (cc_dec : Z -> bytes -> bytes -> bytes -> option bytes) (bs macsz : Z),
+  4 <= bs -> 0 <= macsz ->
+  (forall sq h d, zlen h = 4 ->
+     let r := cc_enc sq h d in
+     zlen (fst r) = 4 + zlen d /\ cc_hdr sq (firstn 4 (fst r)) = h /\ zlen (snd r) = macsz /\
+     cc_dec sq (firstn 4 (fst r)) (skipn 4 (fst r)) (snd r) = Some d) ->
+  forall pkts c sq chunks, 0 <= sq < M32 -> Forall (wf_pkt bs Chacha) pkts ->
+  concat chunks = concat (snd (send_stream cst cenc tag gcm_enc cc_enc Chacha c sq pkts)) ->
+  stream_ok cst cenc cdec tag gcm_enc gcm_dec cc_enc cc_hdr cc_dec bs macsz Chacha pkts c sq chunks.
+Proof. exact enc_stream_received_chacha. Qed.
+Print Assumptions C02_enc_stream_received_chacha.
+
+(* send_packet's padding rule produces well-formed packets for every block size >= 8 *)
+Theorem C02_enc_pad_len_wf : forall bs m payload padding, 8 <= bs -> payload <> [] ->
+  zlen padding = pad_len (hdrlen m) bs (zlen payload) -> 1 + zlen payload + zlen padding < M32 ->
+  wf_pkt bs m (payload, padding).
+Proof. exact pad_len_wf. Qed.
+Print Assumptions C02_enc_pad_len_wf.
+
+(* T4, non-vacuity: the toy cipher / MAC / AEADs of Model/PacketEnc.v (the ones the harness installs
+   in the real shim classes) satisfy every law assumed by the four T3 theorems, so T3 holds for the
+   toy-instantiated model - the one the correspondence runs - with no premise on primitives left. *)
+Theorem C02_enc_toy_stream_received : forall m bs tl k pkts c sq chunks,
+  4 <= bs -> 0 <= sq < M32 ->
+  Forall (fun p => wf_pkt bs m p /\ (m = Basic -> 0 < Z.of_nat tl \/ bs < 5 + zlen (fst p) + zlen (snd p))) pkts ->
+  concat chunks = concat (snd (toy_send_stream m tl k c sq pkts)) ->
+  toy_stream_ok m bs tl k pkts c sq chunks.
+Proof. exact toy_stream_received. Qed.
+Print Assumptions C02_enc_toy_stream_received.
+
+(* two packets through send + feed in 3-byte chunks, every mode, sequence number wrapping at 2^32 *)
+Fixpoint chop3 (l : bytes) (fuel : nat) : list bytes :=
+  match fuel with
+  | O => [l]
+  | S f => match l with [] => [] | _ => firstn 3 l :: chop3 (skipn 3 l) f end
+  end.
+
+Example C02_enc_two_packets :
+  forallb (fun m =>
+    let pkts := [([2; 0; 0; 0; 1; 65], [9; 8; 7; 6; 5; 4; 3; 2; 1; 0] ++ (if hdrlen m =? 5 then [] else [1; 2; 3; 4]));
+                 ([4; 1; 0; 0; 0; 0; 0; 0; 0; 0], [1; 2; 3; 4; 5; 6] ++ (if hdrlen m =? 5 then [] else [1; 2; 3; 4]))] in
+    let '(c', sq', ws) := toy_send_stream m 4 7 100 4294967295 pkts in
+    let s := fold_left (toy_feed m 16 4 7) (chop3 (concat ws) 100) (einit 100 4294967295) in
+    list_eqb zlist_eqb (egot s) (map fst pkts) && (eseq s =? 1) && (sq' =? 1) && (ecst s =? c') &&
+    zlist_eqb (map vseq (elog s)) [4294967295; 0] && (status_code (est s) =? 0))
+  [Basic; ETM; GCM; Chacha] = true.
+Proof. vm_compute. reflexivity. Qed.
+
+(* The excluded case is real in the encrypted phase too (ETM, no MAC, block size 8): a length field
+   announcing less than one block makes the parse depend on the segmentation. *)
+Theorem C02_enc_short_length_refuted :
+  exists a b, let f := toy_feed ETM 8 0 7 in f (f (einit 0 0) a) b <> f (einit 0 0) (a ++ b).
+Proof.
+  exists [0;0;0;2; 2;9;9;9; 1;2;3], [4;5;6;7;8;9;10]. vm_compute. discriminate.
+Qed.
+Print Assumptions C02_enc_short_length_refuted.
+
+(* Why the Basic theorem needs (0 < macsz or blocksize < packet size): `while self._inpbuf and ...`
+   does not call the body handler on an empty buffer, so a packet of exactly one block without MAC is
+   delivered only when the next byte arrives.  (Not reachable in asyncssh: MAC-less Basic only occurs
+   in clear text, block size 8, where the minimal packet has 16 bytes.) *)
+Theorem C02_enc_late_delivery :
+  exists payload padding w c', wf_pkt 16 Basic (payload, padding) /\
+    toy_send_frame Basic 0 7 0 0 payload padding = (c', w) /\
+    egot (toy_feed Basic 16 0 7 (einit 0 0) w) = [] /\
+    egot (toy_feed Basic 16 0 7 (toy_feed Basic 16 0 7 (einit 0 0) w) [0]) = [payload].
+Proof.
+  exists [2; 0; 0; 0; 2; 65; 66], [1; 2; 3; 4]. eexists. eexists.
+  split; [|split; [vm_compute; reflexivity|split; vm_compute; reflexivity]].
+  unfold wf_pkt. cbn [fst snd]. repeat split; vm_compute; try reflexivity; discriminate.
+Qed.
+Print Assumptions C02_enc_late_delivery.
